@@ -172,6 +172,9 @@ func c06(r *Report) propMeta {
 	r.OrderBefore("order", "orderEndBlockers", "staking", "feeds", "feeds.CalculatePrices iterates bonded validators by power and measures quorum against the bonded total, both updated by staking's end-blocker")
 	r.OrderBefore("order", "orderEndBlockers", "gov", "feeds", "a parameter change passed in this block applies to this block's prices")
 
+	r.Rule("C06.lint", "E8 module lint: no nondeterminism / process-local state in x/feeds")
+	r.ModuleLint("module-lint", "feeds", 20)
+
 	return propMeta{
 		Decided: []string{
 			"R1 CalculatePrice has exactly the three status exits with guards unsupported*2>total -> UNKNOWN; total<quorum or available==0 or available*2<total -> NOT_READY; else AVAILABLE with the median of the same infos; powerQuorum = trunc(TotalBondedTokens * PriceQuorum); power sums add each info's power to the bucket of its status",
@@ -182,6 +185,7 @@ func c06(r *Report) propMeta {
 			"R6 every KV-store Get/Has/Delete of x/feeds uses a key builder of x/feeds/types that some Set of the module also uses (a probe of an iteration prefix or of a sibling family is always-empty state)",
 			"R7 the literal constructors of x/feeds/types (frozen list) store each parameter or a constant unchanged in the record they build: what a handler validated is what is stored",
 			"R8 in app.orderEndBlockers staking (and gov) come before feeds: the bonded set and bonded total the quorum and the weights are taken from are this block's",
+			"lint: the determinism lint (incl. writes to memory held by long-lived objects) over everything reachable from the handlers and blockers of x/feeds",
 		},
 		Undecided: []string{"that the weights are the intended ones (section arithmetic values)", "tie behaviour and the >= at the half-weight crossing being the intended choice"},
 		Assume:    []string{"staking IterateBondedValidatorsByPower yields bonded validators only", "sdkmath.Int arithmetic is exact"},
